@@ -572,3 +572,196 @@ pub fn pairs(input: &str, out: &str) {
     let mut fo = fs::File::create(out).expect("out");
     writeln!(fo, "{}", json!({ "C12": r })).unwrap();
 }
+
+// ------------------------------------------------------------------------------------------
+// C17: parser
+// ------------------------------------------------------------------------------------------
+pub fn parser(input: &str, out: &str) {
+    std::panic::set_hook(Box::new(|_| {}));
+    let f = BufReader::new(fs::File::open(input).expect("input"));
+    let mut t = Tally::new();
+    let mut junk = 0usize;
+    let mut junk_ok = 0usize;
+    let mut junk_err = 0usize;
+    for line in f.lines() {
+        let line = line.unwrap();
+        let e: Value = match serde_json::from_str(&line) {
+            Ok(v) => v,
+            Err(_) => continue,
+        };
+        let s = gs(&e, "s").to_string();
+        let res = catch_unwind(AssertUnwindSafe(|| Transform2::from_operations(&s)));
+        t.checked += 1;
+        if e.get("junk").is_some() {
+            junk += 1;
+            match res {
+                Err(_) => t.fail(&e, "the parser panicked", json!(null)),
+                Ok(Ok(_)) => junk_ok += 1,
+                Ok(Err(_)) => junk_err += 1,
+            }
+            continue;
+        }
+        t.nontrivial += 1;
+        match res {
+            Err(_) => t.fail(&e, "the parser panicked on a grammar string", json!(null)),
+            Ok(Err(err)) => t.fail(&e, "grammar string rejected", json!(format!("{}", err))),
+            Ok(Ok(tr)) => {
+                let m = mat(&tr);
+                let mut ok = true;
+                for (row, key) in [(0usize, "r1"), (1usize, "r2")].iter() {
+                    let r = farr(&e, key);
+                    let expect = [r[0], r[1], r[2] / r[3]];
+                    for c in 0..3 {
+                        if !((m[(*row, c)] - expect[c]).abs() <= 1e-15) {
+                            ok = false;
+                        }
+                    }
+                }
+                if !ok {
+                    t.fail(
+                        &e,
+                        "parsed to a different affine map than the string denotes",
+                        json!([[m[(0, 0)], m[(0, 1)], m[(0, 2)]], [m[(1, 0)], m[(1, 1)], m[(1, 2)]]]),
+                    );
+                }
+            }
+        }
+    }
+    let mut r = t.to_json();
+    r["junk_strings"] = json!(junk);
+    r["junk_parsed"] = json!(junk_ok);
+    r["junk_rejected"] = json!(junk_err);
+    let mut fo = fs::File::create(out).expect("out");
+    writeln!(fo, "{}", json!({ "C17": r })).unwrap();
+}
+
+// ------------------------------------------------------------------------------------------
+// C14: lattice
+// ------------------------------------------------------------------------------------------
+pub fn lattice(input: &str, out: &str) {
+    use nalgebra::Point2;
+    std::panic::set_hook(Box::new(|_| {}));
+    let f = BufReader::new(fs::File::open(input).expect("input"));
+    let mut t = Tally::new();
+    let mut images_checked = 0usize;
+    for line in f.lines() {
+        let line = line.unwrap();
+        let e: Value = match serde_json::from_str(&line) {
+            Ok(v) => v,
+            Err(_) => continue,
+        };
+        let (u, d) = (gi(&e, "U") as f64, gi(&e, "D") as f64);
+        let (ax, bx, by) = (gi(&e, "ax") as f64, gi(&e, "bx") as f64, gi(&e, "by") as f64);
+        let cell: Cell2 = match serde_json::from_value(json!({
+            "length": ax / u, "ratio": (bx * bx + by * by).sqrt() / ax,
+            "angle": f64::atan2(by, bx), "family": gs(&e, "fam")})) {
+            Ok(c) => c,
+            Err(_) => {
+                t.skipped += 1;
+                continue;
+            }
+        };
+        t.checked += 1;
+        t.nontrivial += 1;
+        let scale = d * u;
+        let tol = 1e-12 * f64::max(1., 4. * ax / u);
+        let (x, y) = (gi(&e, "fx") as f64 / d, gi(&e, "fy") as f64 / d);
+        let cart = farr(&e, "cart");
+        let (ex, ey) = (cart[0] / scale, cart[1] / scale);
+        let phi = norm_angle(gi(&e, "c"), gi(&e, "s"));
+        let tr = Transform2::new(phi, (x, y));
+        let lin0 = mat(&tr);
+        let mut bad: Vec<String> = vec![];
+        let r = catch_unwind(AssertUnwindSafe(|| {
+            let mut bad: Vec<String> = vec![];
+            let (cx, cy) = cell.to_cartesian(x, y);
+            if (cx - ex).abs() > tol || (cy - ey).abs() > tol {
+                bad.push(format!("to_cartesian gives ({}, {}), expected ({}, {})", cx, cy, ex, ey));
+            }
+            let p = cell.to_cartesian_point(Point2::new(x, y));
+            if (p.x - ex).abs() > tol || (p.y - ey).abs() > tol {
+                bad.push("to_cartesian_point differs".to_string());
+            }
+            let iso = mat(&cell.to_cartesian_isometry(tr));
+            if (iso[(0, 2)] - ex).abs() > tol
+                || (iso[(1, 2)] - ey).abs() > tol
+                || iso[(0, 0)] != lin0[(0, 0)]
+                || iso[(0, 1)] != lin0[(0, 1)]
+                || iso[(1, 0)] != lin0[(1, 0)]
+                || iso[(1, 1)] != lin0[(1, 1)]
+            {
+                bad.push("to_cartesian_isometry moves to the wrong point or changes the orientation".to_string());
+            }
+            let area = gi(&e, "area") as f64 / (u * u);
+            if (cell.area() - area).abs() > 1e-12 * area.max(1.) {
+                bad.push(format!("area {} differs from |A x B| = {}", cell.area(), area));
+            }
+            // corners
+            let corners = cell.get_corners();
+            if let Some(cs) = e["corners"].as_array() {
+                for (i, c) in cs.iter().enumerate() {
+                    let c: Vec<f64> = c.as_array().unwrap().iter().map(|v| v.as_i64().unwrap() as f64).collect();
+                    if i >= corners.len()
+                        || (corners[i].x - c[0] / scale).abs() > tol
+                        || (corners[i].y - c[1] / scale).abs() > tol
+                    {
+                        bad.push(format!("corner {} differs", i));
+                    }
+                }
+            }
+            // periodic images
+            let k = gi(&e, "k");
+            let zero = e["zero"].as_bool().unwrap_or(false);
+            let imgs: Vec<Matrix3<f64>> = cell.periodic_images(tr, k, zero).map(|t| mat(&t)).collect();
+            let exp: Vec<Vec<f64>> = e["images"]
+                .as_array()
+                .unwrap()
+                .iter()
+                .map(|v| v.as_array().unwrap().iter().map(|z| z.as_i64().unwrap() as f64).collect())
+                .collect();
+            if imgs.len() != exp.len() {
+                bad.push(format!("{} images, expected {}", imgs.len(), exp.len()));
+            } else {
+                let mut used = vec![false; imgs.len()];
+                for ev in exp.iter() {
+                    let (px, py) = (ev[2] / scale, ev[3] / scale);
+                    let mut found = false;
+                    for (i, m) in imgs.iter().enumerate() {
+                        if !used[i] && (m[(0, 2)] - px).abs() <= tol && (m[(1, 2)] - py).abs() <= tol {
+                            used[i] = true;
+                            found = true;
+                            if m[(0, 0)] != lin0[(0, 0)] || m[(0, 1)] != lin0[(0, 1)] || m[(1, 0)] != lin0[(1, 0)] || m[(1, 1)] != lin0[(1, 1)] {
+                                bad.push("an image changed the orientation".to_string());
+                            }
+                            // the single translate agrees too
+                            let one = mat(&cell.to_cartesian_translate(tr, ev[0] as i64, ev[1] as i64));
+                            if (one[(0, 2)] - px).abs() > tol || (one[(1, 2)] - py).abs() > tol {
+                                bad.push("to_cartesian_translate differs from the image".to_string());
+                            }
+                            break;
+                        }
+                    }
+                    if !found {
+                        bad.push(format!("image ({}, {}) missing", ev[0], ev[1]));
+                        break;
+                    }
+                }
+            }
+            (bad, imgs.len())
+        }));
+        match r {
+            Ok((b, n)) => {
+                bad = b;
+                images_checked += n;
+            }
+            Err(_) => bad.push("panic".to_string()),
+        }
+        if !bad.is_empty() {
+            t.fail(&e, &bad[0], json!(bad));
+        }
+    }
+    let mut r = t.to_json();
+    r["images_checked"] = json!(images_checked);
+    let mut fo = fs::File::create(out).expect("out");
+    writeln!(fo, "{}", json!({ "C14": r })).unwrap();
+}
